@@ -33,10 +33,12 @@ int tinyjambu_aead_check_tag
         --size;
     }
     accum = (accum - 1) >> 8;
+    TINYJAMBU_VERIF_POINT(4);
 
     /* Destroy the plaintext if the tag match failed */
     while (plaintext_len > 0) {
         *plaintext++ &= accum;
+        TINYJAMBU_VERIF_POINT(5);
         --plaintext_len;
     }
 
